@@ -1,58 +1,402 @@
-"""CLI: ./check <ID> [--tier quick|thorough] [--replay F] [--only substr]"""
+"""CLI: ./check <ID> [--tier quick|thorough] [--replay F] [--only substr] [--update-lock]
+
+exit 0 held (all obligations discharged; KNOWN-FINDING lines allowed)
+     1 violation   2 undecided   3 checker error
+"""
 from __future__ import annotations
 
 import argparse
+import concurrent.futures as cf
 import glob
+import hashlib
 import importlib
+import json
 import os
+import re
 import sys
 import time
+import traceback
 
-from . import contracts as C
-from . import solve, vcgen
+HERE = os.path.dirname(os.path.dirname(os.path.abspath(__file__)))
+
+GLOBAL_ASSUMPTIONS = [
+    'A1 single-threaded asyncio: code between two awaits is atomic',
+    'A2 callbacks/sinks/listeners invoked by a verified function do not re-enter the object being verified',
+    'A3 prefix-less struct formats are little-endian (host byte order)',
+    'A4 hand-written models of built-ins (struct, slicing, int.from_bytes, dict, deque, bytes) validated only by the CPython cross-check',
+    'A5 logger.* calls and the f-strings inside them are pure and non-raising (dropped by the extraction)',
+    'A6 soundness of z3 4.x/5.1 and cvc5 1.0.3',
+    'A7 reflection reads the same modules that run (PYTHONPATH=$VERIF_REPO first)',
+    'Python ints are mathematical integers in the encoding (exact: CPython ints are unbounded)',
+    'byte strings are z3 Seq(Int) with 0..255 assumed at every element read (type invariant of bytes)',
+]
 
 
 def load_contracts(prop=None):
-    here = os.path.dirname(os.path.dirname(os.path.abspath(__file__)))
-    for fn in sorted(glob.glob(os.path.join(here, 'contracts', 'c*.py'))):
+    for fn in sorted(glob.glob(os.path.join(HERE, 'contracts', 'c*.py'))):
         name = os.path.basename(fn)[:-3]
         if prop and not name.lower().startswith(prop.lower()):
             continue
         importlib.import_module('contracts.' + name)
 
 
+def top_key(top):
+    return getattr(top, 'key', None) or top.name
+
+
+# ---------------------------------------------------------------------------
+# worker: one contract / lemma
+# ---------------------------------------------------------------------------
+
+
+def process_top(job):
+    prop, key, tier, seed, inner_procs, timeout_ms = job
+    from . import contracts as C
+    from . import replay as R
+    from . import solve, vcgen
+
+    t0 = time.time()
+    out = {'key': key, 'names': {}, 'undecided': [], 'error': None, 'bounded': []}
+    try:
+        load_contracts(prop)
+        top = next(t for t in C.REG.by_prop.get(prop, []) if top_key(t) == key)
+        out['kind'] = 'lemma' if isinstance(top, C.Lemma) else 'contract'
+        out['trusted'] = bool(getattr(top, 'trusted', False))
+        out['note'] = getattr(top, 'note', '') or top.extra.get('note', '') if hasattr(top, 'extra') else ''
+        custom = getattr(top, 'extra', {}).get('custom')
+        if custom is not None:
+            return custom(top, out, tier, seed)
+        res = vcgen.verify(C.REG, top, tier=tier)
+        out['gen_s'] = time.time() - t0
+        out['paths'] = res.paths
+        out['normal_paths'] = res.normal_paths
+        out['exc_paths'] = res.exc_paths
+        out['sha'] = res.sha
+        out['inlined'] = sorted(res.inlined)
+        out['used'] = sorted(res.used)
+        out['feas_checks'] = res.feas_checks
+        out['undecided'] = sorted(set(res.undecided))
+        results = solve.discharge_all(res.obligations, timeout_ms, procs=inner_procs, seed=seed, both=(tier == 'thorough'))
+        for ob, r in zip(res.obligations, results):
+            e = out['names'].setdefault(ob.name, {'kind': ob.kind, 'n': 0, 'proved': 0, 'refuted': 0, 'unknown': 0, 'vacuous': 0, 'disagree': 0, 'time': 0.0, 'max_time': 0.0, 'backends': {}, 'abstracted': False, 'witnesses': [], 'details': [], 'expect_sat': ob.expect_sat, 'loc': ob.loc})
+            e['n'] += 1
+            st = r['status']
+            e[st] = e.get(st, 0) + 1
+            e['time'] += r.get('time', 0.0)
+            e['max_time'] = max(e['max_time'], r.get('time', 0.0))
+            e['backends'][r.get('backend', '?')] = e['backends'].get(r.get('backend', '?'), 0) + 1
+            e['abstracted'] = e['abstracted'] or ob.abstracted
+            if st in ('unknown', 'disagree') and len(e['details']) < 3:
+                e['details'].append(f"{ob.loc}: {r.get('detail', '')}"[:400])
+            if st == 'refuted' and len(e['witnesses']) < 4:
+                w = {'loc': ob.loc, 'decisions': list(ob.info.get('decisions', ())), 'info': {k: v for k, v in ob.info.items() if k in ('exception', 'at')}, 'solver': r.get('backend'), 'detail': r.get('detail', '')}
+                if 'cex' in r:
+                    w['state'] = r['cex']
+                if 'cex_head' in r:
+                    w['head'] = r['cex_head']
+                # native replay
+                tries = []
+                if 'state' in w:
+                    tries.append(('entry', w['state']))
+                if 'head' in w:
+                    tries.append(('loop-head', w['head']))
+                w['replay'] = {'outcome': 'no-model'}
+                for label, stt in tries:
+                    try:
+                        rr = R.run_native(top, C.REG, stt)
+                    except Exception as ex:  # noqa: BLE001
+                        rr = {'outcome': 'error', 'detail': repr(ex)}
+                    rr['from'] = label
+                    rr['confirms'] = R.confirms(ob.name, ob.kind, ob.info, rr)
+                    w['replay'] = rr
+                    if rr['confirms']:
+                        w['replay_state'] = stt
+                        break
+                e['witnesses'].append(w)
+    except Exception:
+        out['error'] = traceback.format_exc()
+    out['wall_s'] = time.time() - t0
+    return out
+
+
+# ---------------------------------------------------------------------------
+# known findings / lock
+# ---------------------------------------------------------------------------
+
+
+def load_known(prop):
+    fn = os.path.join(HERE, 'known_findings.txt')
+    found = []
+    if not os.path.exists(fn):
+        return found
+    for line in open(fn):
+        line = line.strip()
+        m = re.match(r'^finding: property=(\S+) obligation=(\S+)(?: witness=(.*?))? :: (.*)$', line)
+        if m and m.group(1) == prop:
+            found.append({'obligation': m.group(2), 'witness': m.group(3), 'text': m.group(4)})
+    return found
+
+
+def witness_matches(expr, w):
+    if not expr or expr == 'any':
+        return True
+    try:
+        st = w.get('replay_state') or w.get('state') or {}
+        return bool(eval(expr, {'__builtins__': {'len': len, 'any': any, 'all': all, 'isinstance': isinstance, 'bytes': bytes, 'int': int}}, {'env': st.get('env', {}), 'ghost': st.get('ghost', {}), 'w': w}))
+    except Exception:
+        return False
+
+
+def load_lock():
+    fn = os.path.join(HERE, 'obligations.lock')
+    if not os.path.exists(fn):
+        return set()
+    return {l.strip() for l in open(fn) if l.strip() and not l.startswith('#')}
+
+
+def write_lock(prop, names):
+    fn = os.path.join(HERE, 'obligations.lock')
+    cur = load_lock()
+    cur = {n for n in cur if not n.startswith(prop + '/')} | set(names)
+    with open(fn, 'w') as f:
+        f.write('# obligations discharged on the unchanged tree (regenerate: ./check <ID> --update-lock)\n')
+        for n in sorted(cur):
+            f.write(n + '\n')
+
+
+def safe(name):
+    return re.sub(r'[^A-Za-z0-9_.#-]+', '_', name)[:150]
+
+
+# ---------------------------------------------------------------------------
+# main
+# ---------------------------------------------------------------------------
+
+
 def main():
     ap = argparse.ArgumentParser()
     ap.add_argument('prop')
-    ap.add_argument('--tier', default=os.environ.get('VERIF_TIER', 'quick'))
+    ap.add_argument('--tier', default=os.environ.get('VERIF_TIER') or 'quick')
     ap.add_argument('--only', default=None)
     ap.add_argument('--replay', default=None)
+    ap.add_argument('--update-lock', action='store_true')
+    ap.add_argument('--no-evidence', action='store_true')
     ap.add_argument('-v', action='store_true')
     a = ap.parse_args()
-    load_contracts(a.prop)
-    tops = C.REG.by_prop.get(a.prop, [])
-    for top in tops:
-        key = getattr(top, 'key', None) or top.name
-        if a.only and a.only not in key:
+    if a.tier not in ('quick', 'thorough'):
+        a.tier = 'quick'
+    seed = int(os.environ.get('VERIF_SEED', '0') or 0)
+    prop = a.prop
+    t_start = time.time()
+    from . import contracts as C
+    from . import replay as R
+
+    try:
+        load_contracts(prop)
+    except Exception:
+        traceback.print_exc()
+        print(f'CHECKER-ERROR property={prop} contracts failed to load')
+        sys.exit(3)
+
+    if a.replay:
+        sys.exit(do_replay(prop, a.replay))
+
+    tops = [t for t in C.REG.by_prop.get(prop, []) if not a.only or a.only in top_key(t)]
+    if not tops:
+        print(f'CHECKER-ERROR property={prop} no contracts registered')
+        sys.exit(3)
+    timeout_ms = 20000 if a.tier == 'quick' else 120000
+    ncpu = os.cpu_count() or 4
+    outer = max(1, min(len(tops), 5))
+    inner = max(2, (ncpu - 1) // outer)
+    jobs = [(prop, top_key(t), a.tier, seed, inner, timeout_ms) for t in tops]
+    results = []
+    if len(jobs) == 1:
+        results = [process_top(jobs[0])]
+    else:
+        with cf.ProcessPoolExecutor(max_workers=outer) as pool:
+            results = list(pool.map(process_top, jobs))
+
+    known = load_known(prop)
+    lock = load_lock()
+    violations = []  # (obligation name, replay path, suffix)
+    known_lines = []
+    undecided = []
+    errors = []
+    n_obl = n_dis = n_known = 0
+    backends = {}
+    solver_time = 0.0
+    functions = []
+    samples = []
+    covers = {}
+    discharged_names = []
+    bounded = []
+    os.makedirs(os.path.join(HERE, 'replays', prop), exist_ok=True)
+    for out in results:
+        key = out['key']
+        if out.get('error'):
+            errors.append(f'{key}: {out["error"].strip().splitlines()[-1]}')
+            if a.v:
+                print(out['error'])
             continue
-        t0 = time.time()
-        res = vcgen.verify(C.REG, top, tier=a.tier)
-        t1 = time.time()
-        print(f'== {key}: {res.paths} paths, {len(res.obligations)} obligations, feas={res.feas_checks}, gen {t1-t0:.1f}s; normal={res.normal_paths} exc={res.exc_paths} inlined={sorted(res.inlined)}')
-        for u in sorted(set(res.undecided)):
-            print('   UNDECIDED:', u)
-        agg = {}
-        results = solve.discharge_all(res.obligations, 20000)
-        for ob, r in zip(res.obligations, results):
-            agg.setdefault(ob.name, []).append((r['status'], r['time'], r['backend']))
-            if r['status'] not in ('proved',) or a.v:
-                print('   ', ob.name, r['status'], f"{r['time']:.2f}s", r['backend'], ob.loc, r.get('detail', ''), ob.info.get('decisions'))
-                if 'cex' in r:
-                    print('        cex:', r['cex'])
-        for n, rs in agg.items():
-            st = {s for s, _, _ in rs}
-            print(f'   {n}: {len(rs)} instance(s) {sorted(st)} max {max(t for _, t, _ in rs):.2f}s')
-        print(f'   total {time.time()-t0:.1f}s')
+        functions.append({'target': key, 'kind': out.get('kind'), 'sha256_16': out.get('sha', ''), 'inlined': out.get('inlined', []), 'callee_contracts_used': out.get('used', []), 'paths': out.get('paths', 0), 'trusted': out.get('trusted', False)})
+        bounded.extend(out.get('bounded', []))
+        for u in out['undecided']:
+            undecided.append(f'{key}: {u}')
+        if not out['names'] and not out.get('trusted'):
+            errors.append(f'{key}: zero obligations generated')
+        for name, e in out['names'].items():
+            for bk, c in e['backends'].items():
+                backends[bk] = backends.get(bk, 0) + c
+            solver_time += e['time']
+            if e['expect_sat']:
+                covers[name] = {'instances': e['n'], 'sat': e['proved']}
+                if e['proved'] == 0:
+                    errors.append(f'{name}: vacuous (requires unsatisfiable on every path)')
+                continue
+            if e.get('disagree'):
+                errors.append(f'{name}: solvers disagree: {e["details"]}')
+                continue
+            if e['refuted']:
+                # triage by replay
+                handled = False
+                for w in e['witnesses']:
+                    rp = w.get('replay', {})
+                    kf = next((k for k in known if k['obligation'] == name and witness_matches(k['witness'], w)), None)
+                    if kf is not None:
+                        known_lines.append(f'KNOWN-FINDING: property={prop} {name} {kf["text"]}')
+                        n_known += e['n']
+                        handled = True
+                        break
+                    path = os.path.join(HERE, 'replays', prop, safe(name) + '.json')
+                    doc = {'property': prop, 'obligation': name, 'top': key, 'location': w.get('loc'), 'decisions': w.get('decisions'), 'solver': w.get('solver'), 'solver_detail': w.get('detail'), 'info': w.get('info'), 'state': R.to_jsonable(w.get('replay_state') or w.get('state')), 'head': R.to_jsonable(w.get('head')), 'native': rp}
+                    if rp.get('confirms'):
+                        json.dump(doc, open(path, 'w'), indent=1)
+                        violations.append((name, path, ''))
+                        handled = True
+                        break
+                if not handled:
+                    w = e['witnesses'][0] if e['witnesses'] else {}
+                    rp = w.get('replay', {})
+                    path = os.path.join(HERE, 'replays', prop, safe(name) + '.json')
+                    doc = {'property': prop, 'obligation': name, 'top': key, 'location': w.get('loc'), 'decisions': w.get('decisions'), 'solver': w.get('solver'), 'solver_detail': w.get('detail'), 'info': w.get('info'), 'state': R.to_jsonable(w.get('state')), 'head': R.to_jsonable(w.get('head')), 'native': rp, 'note': 'obligation refuted by the solver; native replay of the counter-model did not reproduce a contract violation'}
+                    json.dump(doc, open(path, 'w'), indent=1)
+                    if name in lock:
+                        violations.append((name, path, ' no-failing-input-found'))
+                    elif rp.get('outcome') == 'held' and not e['abstracted'] and w.get('replay', {}).get('from') == 'entry' and 'head' not in w:
+                        errors.append(f'{name}: counter-model does not replay although no abstraction was used (engine model of a primitive?)')
+                    else:
+                        undecided.append(f'{name}: refuted by solver, replay {rp.get("outcome")} (not in obligations.lock)')
+                continue
+            if e['unknown'] or e.get('vacuous'):
+                undecided.append(f'{name}: {e["unknown"]} instance(s) undecided {e["details"]}')
+                n_obl += e['n']
+                n_dis += e['proved']
+                continue
+            n_obl += e['n']
+            n_dis += e['proved']
+            discharged_names.append(name)
+            if len(samples) < 12:
+                samples.append({'obligation': name, 'instances': e['n'], 'max_time_s': round(e['max_time'], 3), 'backends': e['backends'], 'at': e['loc']})
+
+    wall = time.time() - t_start
+    # ------------------------------------------------------------------ report
+    for out in results:
+        if out.get('error'):
+            continue
+        nn = sum(e['n'] for e in out['names'].values())
+        print(f'[{out["key"]}] paths={out.get("paths")} obligations={nn} gen={out.get("gen_s", 0):.1f}s wall={out.get("wall_s", 0):.1f}s')
+        if a.v:
+            for name, e in out['names'].items():
+                print(f'    {name}: n={e["n"]} proved={e["proved"]} refuted={e["refuted"]} unknown={e["unknown"]} max={e["max_time"]:.2f}s {e["backends"]}')
+    for l in known_lines:
+        print(l)
+    for u in undecided:
+        print('UNDECIDED:', u)
+    for e in errors:
+        print('CHECKER-ERROR:', e)
+    for name, path, suffix in violations:
+        print(f'VIOLATION property={prop} replay={path}{suffix}')
+        print(f'    obligation {name}')
+    code = 0
+    if errors:
+        code = 3
+    if undecided and code == 0:
+        code = 2
+    if violations:
+        code = 1
+    print(f'{prop}: obligations={n_obl} discharged={n_dis} known_findings={n_known} violations={len(violations)} undecided={len(undecided)} errors={len(errors)} wall={wall:.1f}s exit={code}')
+
+    if a.update_lock and code == 0:
+        write_lock(prop, discharged_names)
+    if not a.no_evidence and not a.only:
+        ev = {
+            'property_id': prop,
+            'tier': a.tier,
+            'seed': seed,
+            'level': 'proof',
+            'coverage': {
+                'obligations': n_obl,
+                'discharged': n_dis,
+                'checker_cmd': f'./check {prop} --tier {a.tier}',
+                'trusted_base': GLOBAL_ASSUMPTIONS + prop_trusted(prop, tops),
+                'functions_under_contract': functions,
+                'obligation_names': len(discharged_names),
+                'backends': backends,
+                'solver_time_s': round(solver_time, 2),
+                'samples': samples,
+                'bounded': bounded,
+                'known_findings': n_known,
+                'known_finding_lines': known_lines,
+                'covers': covers,
+                'undecided': undecided,
+                'checker_errors': errors,
+                'explanation': 'every obligation is a verification condition generated from the AST of the function in /repo (re-read on this run) against its sidecar contract; discharged = proved unsat(pc and not goal) by z3 or cvc5',
+            },
+            'assumptions': GLOBAL_ASSUMPTIONS + prop_trusted(prop, tops),
+            'wall_s': round(wall, 2),
+            'violations': len(violations),
+        }
+        os.makedirs(os.path.join(HERE, 'evidence'), exist_ok=True)
+        json.dump(ev, open(os.path.join(HERE, 'evidence', f'{prop}.json'), 'w'), indent=1)
+    sys.exit(code)
+
+
+def prop_trusted(prop, tops):
+    out = []
+    for t in tops:
+        for n in getattr(t, 'extra', {}).get('assumes', []):
+            out.append(f'{top_key(t)}: {n}')
+        if getattr(t, 'trusted', False):
+            out.append(f'{top_key(t)}: contract trusted (body not verified)')
+    mod = sys.modules.get('contracts.' + next((os.path.basename(f)[:-3] for f in glob.glob(os.path.join(HERE, 'contracts', f'{prop.lower()}_*.py'))), ''), None)
+    if mod is not None:
+        out.extend(getattr(mod, 'ENVIRONMENT', []))
+    return out
+
+
+def do_replay(prop, path):
+    from . import contracts as C
+    from . import replay as R
+
+    doc = json.load(open(path))
+    top = next((t for t in C.REG.by_prop.get(prop, []) if top_key(t) == doc['top']), None)
+    if top is None:
+        print(f'no contract {doc["top"]}')
+        return 3
+    custom = getattr(top, 'extra', {}).get('custom_replay')
+    if custom is not None:
+        return custom(top, doc)
+    st = R.from_jsonable(doc.get('state'))
+    if not st:
+        print(f'replay file carries no concrete state (obligation {doc["obligation"]}); solver: {doc.get("solver_detail")}')
+        return 2
+    rr = R.run_native(top, C.REG, st)
+    print(json.dumps(rr, indent=1, default=repr))
+    if rr['outcome'] == 'violated':
+        print(f'VIOLATION property={prop} replay={path}')
+        return 1
+    return 0
 
 
 if __name__ == '__main__':
